@@ -51,6 +51,28 @@ def derived_routes(c):
     yield 'boc-foreign-stored-hashes', lambda: Cell.one_from_boc(foreign_boc(c, None))
     yield 'boc-foreign-bogus-hashes', lambda: _or_rejected(lambda: Cell.one_from_boc(foreign_boc(c, 1)), c)
     yield 'boc-foreign-bogus-slice-entry', lambda: _or_rejected(lambda: Slice.one_from_boc(foreign_boc(c, 2)).to_cell(), c)
+    # a bag of TWO roots whose root list is not the identity (an unrelated small cell sits at position 0, c's root later; the list names
+    # c's root first): the first cell returned is the one the root list names, not the first record
+    yield 'boc-foreign-root-order', lambda: Cell.from_boc(foreign_boc(c, None, prelude=True))[0]
+    # a slice whose references have all been read, turned back into a builder / stored: nothing that was consumed may reappear
+    yield 'consumed-refs.to_builder', lambda: _consumed_then_rebuilt(c, 'to_builder')
+    yield 'consumed-refs.store_slice', lambda: _consumed_then_rebuilt(c, 'store_slice')
+
+
+def _consumed_then_rebuilt(c, how):
+    from pytoniq_core.boc.builder import Builder
+    if c.type_ != -1:
+        return c                                   # to_builder / store_slice refuse exotic cells by design
+    s = c.begin_parse()
+    refs = [s.load_ref() for _ in range(len(c.refs))]
+    if how == 'to_builder':
+        b = s.to_builder()                         # the remaining bits, no references left
+    else:
+        b = Builder()
+        b.store_slice(s)
+    for r in refs:
+        b.store_ref(r)
+    return b.end_cell()
 
 
 def _or_rejected(f, c):
@@ -61,7 +83,7 @@ def _or_rejected(f, c):
         return c
 
 
-def foreign_boc(c, bogus):
+def foreign_boc(c, bogus, prelude=False):
     """independent encoder (C05.py_encode) over the sub-DAG of library cell c, every record carrying stored hashes/depths;
     bogus: None = the true values, int = seed of arbitrary values"""
     import random
@@ -93,11 +115,21 @@ def foreign_boc(c, bogus):
             hs.append(h)
             ds.append(d)
         recs.append(dict(kind=x.type_, bits=x.bits.to01(), refs=[pos[r.hash] for r in x.refs], mask=m, hashes=hs, depths=ds))
+    store = [True] * len(recs)
+    roots = [0]
+    if prelude:
+        # records of c's DAG shifted behind one unrelated leaf; root list = [root of c, the leaf]
+        for r in recs:
+            r['refs'] = [i + 1 for i in r['refs']]
+        recs.insert(0, dict(kind=-1, bits='1010110011', refs=[], mask=0, hashes=[b'\x00' * 32], depths=[0]))
+        store = [False] + store
+        roots = [1, 0]
     n = len(recs)
-    tot = sum(len(C05.enc_record(r, 1 if n < 256 else 2, True)) for r in recs)
-    fr = dict(magic='g', size=1 if n < 256 else 2, off=max(1, (tot.bit_length() + 7) // 8), idx=False, crc=bool(bogus), cache=False,
-              store=[True] * n, cflags=[])
-    return C05.py_encode(recs, [0], fr)
+    size = 1 if n < 256 else 2
+    tot = sum(len(C05.enc_record(r, size, st)) for r, st in zip(recs, store))
+    fr = dict(magic='g', size=size, off=max(1, (tot.bit_length() + 7) // 8), idx=False, crc=bool(bogus), cache=False,
+              store=store, cflags=[])
+    return C05.py_encode(recs, roots, fr)
 
 
 def cmp_obs(a, b):
